@@ -467,6 +467,13 @@ func TestWireReal(t *testing.T) {
 				_ = s.SetOption(mangos.OptionMaxRecvSize, limit)
 				self := pn
 				peer := peerOf(pn)
+				// tls+tcp: a peer that opens the TCP connection and never starts the TLS negotiation stays connected all
+				// along; nobody else is held up by it (C16: a peer that never completes its handshake ...)
+				if tr.name == "tls+tcp" {
+					if sc, err := net.DialTimeout("tcp", strings.TrimPrefix(l.Address(), "tls+tcp://"), 2*time.Second); err == nil {
+						defer sc.Close()
+					}
+				}
 				// hostile / broken handshakes first, each followed later by a well-behaved peer
 				bad := [][]byte{goodHdr(peer)[:3], {0, 'S', 'P', 1, byte(peer >> 8), byte(peer), 0, 0}, goodHdr(0x99), {1, 2, 3, 4, 5, 6, 7, 8}, {0, 'S', 'P', 0, byte(peer >> 8), byte(peer), 0, 7}}
 				var stall net.Conn
